@@ -154,11 +154,22 @@ func concJob(j job) any {
 	o := opts(j)
 	type solo struct{ html, err string }
 	base := make([]solo, len(docs))
-	for i, d := range docs {
-		h, e := mjml.Render(d, o...)
-		u, _ := unifyIDs(h)
-		base[i] = solo{u, classify(e).Class + classify(e).Text}
+	solos := func() {
+		for i, d := range docs {
+			h, e := mjml.Render(d, o...)
+			u, _ := unifyIDs(h)
+			base[i] = solo{u, classify(e).Class + classify(e).Text}
+		}
 	}
+	cold := j.boolean("cold") // the concurrent renders are the very first compilations of this process
+	if !cold {
+		solos()
+	}
+	type obs struct {
+		k, g, r int
+		html, err string
+	}
+	var late []obs
 	var mu sync.Mutex
 	bad := 0
 	var firstBad map[string]any
@@ -171,6 +182,12 @@ func concJob(j job) any {
 				k := (g + r) % len(docs)
 				h, e := renderPath("render", docs[k], o)
 				u, _ := unifyIDs(h)
+				if cold {
+					mu.Lock()
+					late = append(late, obs{k, g, r, u, classify(e).Class + classify(e).Text})
+					mu.Unlock()
+					continue
+				}
 				if u != base[k].html || classify(e).Class+classify(e).Text != base[k].err {
 					mu.Lock()
 					bad++
@@ -183,6 +200,17 @@ func concJob(j job) any {
 		}(g)
 	}
 	wg.Wait()
+	if cold {
+		solos()
+		for _, ob := range late {
+			if ob.html != base[ob.k].html || ob.err != base[ob.k].err {
+				bad++
+				if firstBad == nil {
+					firstBad = map[string]any{"doc": ob.k, "goroutine": ob.g, "rep": ob.r, "diff_at": firstDiff(ob.html, base[ob.k].html), "err": ob.err, "solo_err": base[ob.k].err}
+				}
+			}
+		}
+	}
 	mjml.StopASTCacheCleanup()
 	keys := []string{}
 	for _, b := range base {
